@@ -507,6 +507,13 @@ const K_DEL: u32 = 2;
 const K_DELH: u32 = 3;
 const K_WR: u32 = 4;
 const K_CLEAR: u32 = 5;
+/// query operations as transitions (they do not change the model; used by the deep audit, where the ORDER of
+/// queries matters): predecessor handle by key and by comparator, and exact lookup
+const K_QF: u32 = 6;
+const K_QG: u32 = 7;
+/// neighbour steps from the handle of a stored key (sets)
+const K_QA: u32 = 8;
+const K_QB: u32 = 9;
 
 fn op(kind: u32, a: u8) -> u32 {
     (kind << 8) | a as u32
@@ -796,6 +803,80 @@ impl<S: MSub> MSys<S> {
                 ncb = rt::cb_count();
                 r
             }
+            K_QF => {
+                rt::cb_reset(inj);
+                let sub = &o.sub;
+                let r = guard(|| {
+                    let h = sub.fil(a);
+                    let h2 = sub.fil_by(a);
+                    let v = if h != EMPTY_REF { Some(sub.at(h)) } else { None };
+                    (h, h2, v)
+                });
+                ncb = rt::cb_count();
+                match r {
+                    Ok((h, h2, v)) => {
+                        cx.evals += 1;
+                        match Self::pred(&o.model, a) {
+                            None => {
+                                if h != EMPTY_REF || h2 != EMPTY_REF {
+                                    cx.violate(prop, "handle", format!("first_index_less({a}) = {h}, _by = {h2}, but no stored key is <= {a}"));
+                                }
+                            }
+                            Some((k, b)) => {
+                                let want = self.code(k, b);
+                                let ok = h != EMPTY_REF && h == h2 && v.map(|(vk, vc)| vc == want && vk.map(|x| x == k).unwrap_or(true)).unwrap_or(false);
+                                if !ok {
+                                    cx.violate(prop, "handle", format!("first_index_less({a}) = {h} (dereferences to {v:?}), first_index_less_by = {h2}; predecessor key is {k}"));
+                                }
+                            }
+                        }
+                        Ok(())
+                    }
+                    Err(c) => Err(c),
+                }
+            }
+            K_QA | K_QB => {
+                rt::cb_reset(inj);
+                let sub = &o.sub;
+                let after = kind == K_QA;
+                let r = guard(|| {
+                    let h = sub.fil(a);
+                    if h == EMPTY_REF {
+                        return None;
+                    }
+                    let n = if after { sub.after(h) } else { sub.before(h) };
+                    Some(if n == EMPTY_REF { None } else { sub.at(n).0 })
+                });
+                ncb = rt::cb_count();
+                match r {
+                    Ok(got) => {
+                        cx.evals += 1;
+                        let want = if after { o.model.range(a + 1..).next().map(|(k, _)| *k) } else { o.model.range(..a).next_back().map(|(k, _)| *k) };
+                        if got != Some(want) {
+                            cx.violate(prop, if after { "index_after" } else { "index_before" }, format!("{}(handle of {a}) leads to key {got:?}, expected {want:?}", if after { "index_after" } else { "index_before" }));
+                        }
+                        Ok(())
+                    }
+                    Err(c) => Err(c),
+                }
+            }
+            K_QG => {
+                rt::cb_reset(inj);
+                let sub = &o.sub;
+                let r = guard(|| sub.get(a));
+                ncb = rt::cb_count();
+                match r {
+                    Ok(got) => {
+                        cx.evals += 1;
+                        let exp = o.model.get(&a).map(|b| (a, self.code(a, *b)));
+                        if got != exp {
+                            cx.violate(prop, "get_value", format!("get_value({a}) = {got:?}, reference says {exp:?}"));
+                        }
+                        Ok(())
+                    }
+                    Err(c) => Err(c),
+                }
+            }
             _ => panic!("bad op"),
         };
         rt::cb_disarm();
@@ -958,6 +1039,26 @@ impl<S: MSub + Send> System for MSys<S> {
         }
         v
     }
+    fn deep_ops(&self, o: &MObj<S>) -> Vec<u32> {
+        let mut v = vec![];
+        self.enabled(o, &mut v);
+        v.extend(self.query_ops(o));
+        v
+    }
+    fn query_ops(&self, o: &MObj<S>) -> Vec<u32> {
+        let mut v = vec![];
+        for p in 0..=self.probes() {
+            v.push(op(K_QF, p));
+            v.push(op(K_QG, p));
+        }
+        if S::IS_SET {
+            for (&k, _) in o.model.iter() {
+                v.push(op(K_QA, k));
+                v.push(op(K_QB, k));
+            }
+        }
+        v
+    }
     fn step_allowed(&self, o: &MObj<S>, op: u32) -> bool {
         let mut v = vec![];
         self.enabled(o, &mut v);
@@ -1021,6 +1122,10 @@ impl<S: MSub + Send> System for MSys<S> {
             K_DELH => format!("DelH({a})"),
             K_WR => format!("Wr({a})"),
             K_CLEAR => "Clear()".into(),
+            K_QF => format!("QF({a})"),
+            K_QG => format!("QG({a})"),
+            K_QA => format!("QA({a})"),
+            K_QB => format!("QB({a})"),
             _ => format!("?{o}"),
         }
     }
@@ -1034,6 +1139,10 @@ impl<S: MSub + Send> System for MSys<S> {
             "DelH" => op(K_DELH, a),
             "Wr" => op(K_WR, a),
             "Clear" => op(K_CLEAR, 0),
+            "QF" => op(K_QF, a),
+            "QG" => op(K_QG, a),
+            "QA" => op(K_QA, a),
+            "QB" => op(K_QB, a),
             _ => return None,
         })
     }
